@@ -62,8 +62,8 @@ def oor_payload(rv):
 
 
 def edge_cases(ctx, N):
-    """D1x: the first and the last representable year, path by path (no joins): the day-number kernels are analysed with the year pinned to
-    MIN_DATE.0 / MAX_DATE.0 and every other argument symbolic.  For every error path that states a range for argument p, the Ok paths of the
+    """D1x: single years, path by path (no joins): the day-number kernels are analysed with the year pinned to MIN_DATE.0 / MAX_DATE.0 and to
+    a common and a leap year of each era, every other argument symbolic.  For every error path that states a range for argument p, the Ok paths of the
     same case (every other argument inside the values it has on the error path) give the accepted values of p exactly; the stated range
     must contain them (O2, both ends -- also the end that a sibling guard in another function enforces) and exclude the rejected value (O1)."""
     from ..models import const_int
@@ -76,7 +76,7 @@ def edge_cases(ctx, N):
         old_part = I.return_partition.get(fn)
         I.return_partition[fn] = lambda I_, st, v: id(st)
         span = I.bodies[fn]['span']
-        for year in (MIN_YEAR, MAX_YEAR):
+        for year in (MIN_YEAR, MAX_YEAR, 2023, 2024, -5, -6):          # the two edge years, a common and a leap year of each era
             label = f'{fn}[year {year}]'
             N.run(fn, label=label, overrides={'year@1': lambda I_, st, ty, year=year: const_int(year, 'i32')}, variants=('fixed',))
             for args, st0, outs in N.results.get(label, []):
@@ -114,7 +114,7 @@ def edge_cases(ctx, N):
             I.return_partition.pop(fn, None)
         else:
             I.return_partition[fn] = old_part
-    ctx.rule('C15-D1x stated ranges against the accepted values, first and last representable year, path by path', total, good, floor=8)
+    ctx.rule('C15-D1x stated ranges against the accepted values for single years (edge years, a common and a leap year of each era), path by path', total, good, floor=8)
 
 
 def check(ctx):
